@@ -479,6 +479,11 @@ func ruleReleaseClears(c *Ctx, rule string) {
 	if !c.Anchor(rule, "Invoker.Release", rel != nil) {
 		return
 	}
-	_, ok := mustPassBefore(rel.Blocks[0].Instrs[0], storesStructField(l, modPath, "Invoker", "child"), isReturn)
+	_, ok := mustPassBefore(rel.Blocks[0].Instrs[0], storesFieldIdx(l, modPath, "Invoker", invokerChildField(l)), isReturn)
 	c.Check(rule, "Invoker.Release", l.Pos(rel.Pos()), ok, "inv.child is cleared on every path", "Release can return without clearing the invoker's child: a later Invoke runs on a VM that is back in the pool (wiped, or already handed to another invoker)")
+}
+
+func invokerChildField(l *Loaded) int {
+	_, f := l.invokerVMFields()
+	return f
 }
